@@ -3,6 +3,7 @@ import ast
 
 from . import rule, info
 from ..program import AnalysisError, src, norm
+from ..pattern import match, matches
 from ..util import (polarity, exclusive, is_name, calls_in, callee_qual, deref, ancestors, evaluator_calls, handler_outcomes,
                     stmt_of, fmt_witness, parent)
 
@@ -422,6 +423,12 @@ def coalesce(ctx):
         if what:
             cn = cfg.node_containing(n)
             ok = header not in cn.loop_stack and cn is not header and cn not in after_break
+            # an *evaluation* of the default (argument of a call / the factory call itself) must
+            # also come after the loop: computed up front it runs even when an alternative wins
+            par = parent(n)
+            evaluated = isinstance(par, ast.Call) and (n in par.args or par.func is n)
+            if evaluated or isinstance(n, ast.Raise):
+                ok = ok and cfg.dominates(header, cn)
             ctx.ob(ok, u, '%s only when every alternative was skipped' % what, node=n)
     # skip=: predicate as is, tuple -> membership, anything else -> equality
     iu = ctx.unit('core.Coalesce.__init__')
@@ -656,3 +663,32 @@ def wrappers(ctx):
             ok = is_name(e.args[0], u.params[1]) and is_name(e.args[1], lu.params[0]) and is_name(e.args[2], u.params[2])
             ctx.ob(ok, u, 'Invoke evaluates spec arguments on the current target: %s' % norm(e), node=e)
     ctx.floor(9)
+
+
+@rule('C03.16')
+def spec_predicate(ctx):
+    """what the evaluator treats as a spec object: an *instance* with a callable ``glomit`` --
+    a class that merely defines glomit (Path, Spec, a user spec type used as a literal argument
+    or dict key) is a plain value"""
+    p = ctx.program
+    u = ctx.unit('core._has_callable_glomit')
+    cfg = ctx.cfg(u)
+    obj = u.params[0]
+    rets = [r for r in u.own_nodes() if isinstance(r, ast.Return) and r.value is not None]
+    ctx.require(len(rets) == 1, '_has_callable_glomit: expected one return')
+    v = rets[0].value
+    terms = list(v.values) if isinstance(v, ast.BoolOp) and isinstance(v.op, ast.And) else [v]
+    terms = [deref(cfg, cfg.node_of(rets[0]), t) for t in terms]
+
+    def is_callable_glomit(t):
+        if not (isinstance(t, ast.Call) and is_name(t.func, 'callable') and len(t.args) == 1):
+            return False
+        a = deref(cfg, cfg.node_of(rets[0]), t.args[0])
+        return matches(a, "getattr(%s, 'glomit', None)" % obj)
+    has_c = any(is_callable_glomit(t) for t in terms)
+    has_t = any(polarity(t, 'isinstance(%s, type)' % obj) == 'false' for t in terms)
+    ctx.ob(has_c, u, 'a spec object has a callable glomit: %s' % norm(v))
+    ctx.ob(has_t, u, 'classes are never spec objects (only instances are): %s' % norm(v),
+           '' if has_t else 'a class with a glomit method used as a literal (argument, dict key) would be called unbound')
+    ctx.ob(len(terms) == 2, u, 'nothing else decides it (%d terms)' % len(terms))
+    ctx.floor(3)
